@@ -30,10 +30,13 @@ struct State {
 	VC thread[MAXT];
 	bool cxx11_release_sequences = false;      // true: same-thread plain stores continue a release sequence (the pre-C++20 rule)
 	uint64_t acquire_without_release = 0;
+	// fences ([atomics.fences]): what a thread has read without acquiring it (an acquire fence acquires it), and the clock of its
+	// last release fence (later relaxed stores publish that clock as if they were release operations)
+	VC acq_pending[MAXT]; VC rel_fence[MAXT]; bool has_rel_fence[MAXT] = {};
 };
 VCLOCK_NOTSAN inline State &st() { static State s; return s; }
 VCLOCK_NOTSAN inline int me() { int t = dsched::tid + 1; return t < 0 || t >= MAXT ? 0 : t; }
-VCLOCK_NOTSAN inline void reset() { auto &s = st(); for(int i = 0; i < MAXT; i++) { s.thread[i].clear(); s.thread[i].c[i] = 1; } s.acquire_without_release = 0; }
+VCLOCK_NOTSAN inline void reset() { auto &s = st(); for(int i = 0; i < MAXT; i++) { s.thread[i].clear(); s.thread[i].c[i] = 1; s.acq_pending[i].clear(); s.rel_fence[i].clear(); s.has_rel_fence[i] = false; } s.acquire_without_release = 0; }
 // thread creation / join edges of one dsched::run
 VCLOCK_NOTSAN inline void fork_all(int n) { auto &s = st(); for(int k = 1; k <= n && k < MAXT; k++) s.thread[k].join(s.thread[0]); s.thread[0].c[0]++; }
 VCLOCK_NOTSAN inline void join_all(int n) { auto &s = st(); for(int k = 1; k <= n && k < MAXT; k++) { s.thread[0].join(s.thread[k]); s.thread[k].c[k]++; } }
@@ -49,17 +52,51 @@ struct Rel {
 	VC vc; bool has = false; int head = -1;
 	VCLOCK_NOTSAN static bool acq(std::memory_order mo) { return mo == std::memory_order_acquire || mo == std::memory_order_consume || mo == std::memory_order_acq_rel || mo == std::memory_order_seq_cst; }
 	VCLOCK_NOTSAN static bool rel(std::memory_order mo) { return mo == std::memory_order_release || mo == std::memory_order_acq_rel || mo == std::memory_order_seq_cst; }
-	VCLOCK_NOTSAN void on_load(std::memory_order mo) { if(acq(mo)) { if(has) st().thread[me()].join(vc); else st().acquire_without_release++; } }
+	VCLOCK_NOTSAN void on_load(std::memory_order mo) {
+		auto &s = st(); int m = me();
+		if(has) { if(acq(mo)) s.thread[m].join(vc); else s.acq_pending[m].join(vc); }
+		else if(acq(mo)) s.acquire_without_release++;
+	}
 	VCLOCK_NOTSAN void on_store(std::memory_order mo) {
 		auto &s = st(); int m = me();
 		if(rel(mo)) { vc = s.thread[m]; has = true; head = m; s.thread[m].c[m]++; }
+		else if(s.has_rel_fence[m]) { vc = s.rel_fence[m]; has = true; head = m; }      // release fence + relaxed store
 		else if(!(s.cxx11_release_sequences && has && head == m)) { has = false; head = -1; }
 	}
 	VCLOCK_NOTSAN void on_rmw(std::memory_order mo) {
 		auto &s = st(); int m = me();
-		if(acq(mo) && has) s.thread[m].join(vc);
+		if(has) { if(acq(mo)) s.thread[m].join(vc); else s.acq_pending[m].join(vc); }
 		if(rel(mo)) { if(!has) { vc.clear(); has = true; head = m; } vc.join(s.thread[m]); s.thread[m].c[m]++; }
+		else if(s.has_rel_fence[m]) { if(!has) { vc.clear(); has = true; head = m; } vc.join(s.rel_fence[m]); }
 		// a relaxed/acquire-only RMW continues the sequence it read from: vc stays
 	}
 };
+// std::atomic_thread_fence / __atomic_thread_fence
+VCLOCK_NOTSAN inline void on_fence(std::memory_order mo) {
+	auto &s = st(); int m = me();
+	if(Rel::acq(mo)) s.thread[m].join(s.acq_pending[m]);
+	if(Rel::rel(mo)) { s.rel_fence[m] = s.thread[m]; s.has_rel_fence[m] = true; s.thread[m].c[m]++; }
+}
+} // namespace vclock
+
+// ThreadSanitizer does not model stand-alone fences (its fence entry point is a no-op), so code that orders plain accesses with
+// "relaxed load ... acquire fence" or "release fence ... relaxed store" gets false race reports. The interposed operations mirror the
+// fence rules with TSan's annotation interface: an acquire fence acquires the sync objects of the atomics the thread has read
+// without acquiring; after a release fence, a relaxed store or read-modify-write releases on its atomic first. (Under the
+// harness-owned scheduler a load reads the latest value, so "the sync object as it is now" is what the load read from.)
+extern "C" { void __tsan_acquire(void *) __attribute__((weak)); void __tsan_release(void *) __attribute__((weak)); }
+namespace vclock {
+struct FenceMirror { const void *pend[24]; int n = 0; bool rel_fence = false; };
+inline thread_local FenceMirror g_fm;
+inline void mirror_read(const volatile void *p, std::memory_order mo) {
+	if(Rel::acq(mo)) return;
+	auto &f = g_fm; for(int i = 0; i < f.n; i++) if(f.pend[i] == (const void *)p) return;
+	if(f.n < 24) f.pend[f.n++] = (const void *)p; else f.pend[23] = (const void *)p;
+}
+inline void mirror_write(const volatile void *p, std::memory_order mo) { if(!Rel::rel(mo) && g_fm.rel_fence && __tsan_release) __tsan_release((void *)p); }
+inline void mirror_fence(std::memory_order mo) {
+	auto &f = g_fm;
+	if(Rel::acq(mo) && __tsan_acquire) for(int i = 0; i < f.n; i++) __tsan_acquire((void *)f.pend[i]);
+	if(Rel::rel(mo)) f.rel_fence = true;
+}
 } // namespace vclock
